@@ -239,11 +239,195 @@ def concretizer(kind, seed=0, budget=8000):
     """concretize(model, obligation_name) for pyvc: find a real input violating the executable contract (cached per run)"""
     def conc(model, name):
         if kind not in _search_cache:
-            fn = {"collect_quantity": search_collect_quantity}[kind]
+            fn = {"collect_quantity": search_collect_quantity, "gate": search_gate}[kind]
             _search_cache[kind] = fn(seed, budget)
         t, why, n = _search_cache[kind]
         if t is None:
             return {"reproduced": False, "script": None, "output": f"no disagreement among {n} enumerated real inputs"}
-        script = ("from vf.contracts.refimpl import replay_tree\n" f"replay_tree({kind!r}, {seed}, {n})\n")
+        if kind == "gate":
+            script = ("from vf.contracts.refimpl import replay_gate\n" f"replay_gate({t!r})\n")
+        else:
+            script = ("from vf.contracts.refimpl import replay_tree\n" f"replay_tree({kind!r}, {seed}, {n})\n")
         return {"reproduced": True, "script": script, "inputs": str(t), "output": why}
     return conc
+
+
+# ------------------------------------------------------------------------------------------------ C04 reference
+def ref_gate(arg, expected):
+    """'ok' | 'TypeError' | 'UnitsError' | 'ValueError' -- the gate's contract, from the property statement"""
+    from sympy.physics.units import Dimension
+    from symplyphysics.core.dimensions import any_dimension
+    def info(x):
+        if isinstance(x, Dimension):
+            return None, dim_vec(x), False
+        try:
+            v, d = ref_collect_quantity(x)
+        except Refuse:
+            raise
+        from sympy.physics.units import Quantity as SymQuantity
+        wild = isinstance(x, SymQuantity) and x.dimension == any_dimension
+        return v, d, wild
+    try:
+        xv, xd, xw = info(expected)
+    except Refuse:
+        return "ValueError"
+    if xv is not None and (is_any_value(xv) or xw):
+        return "ok"
+    try:
+        av, ad, aw = info(arg)
+    except Refuse:
+        return "ValueError"
+    if av is not None and (is_any_value(av) or aw):
+        return "ok"
+    if dims_equiv(ad, xd, erase_angle=True):
+        return "ok"
+    ad2 = {k: v for k, v in ad.items() if k != "angle"}
+    xd2 = {k: v for k, v in xd.items() if k != "angle"}
+    return "TypeError" if (not ad2 and xd2) else "UnitsError"
+
+
+def real_gate(arg, expected, name="p"):
+    from symplyphysics.core.dimensions import assert_equivalent_dimension
+    from symplyphysics.core.errors import UnitsError
+    try:
+        assert_equivalent_dimension(arg, name, "f", expected)
+        return "ok", ""
+    except UnitsError as e:
+        return "UnitsError", str(e)
+    except TypeError as e:
+        return "TypeError", str(e)
+    except ValueError as e:
+        return "ValueError", str(e)
+
+
+def gate_pool():
+    u = _units()
+    from symplyphysics import Quantity
+    from sympy.physics.units.definitions.dimension_definitions import angle
+    x = sp.Symbol("x")
+    args = [0, 0.0, 1, 2.5, -3, oo, nan, sp.Float(0.0), u.meter, u.centimeter, 5 * u.kilometer, u.second, u.radian, 2 * u.radian, u.meter * u.radian,
+            Quantity(0), Quantity(0 * u.meter), Quantity(3 * u.meter / u.second), u.meter + u.second, u.meter - 100 * u.centimeter, x, x * u.meter,
+            u.length, u.time, angle, u.length * angle, sp.physics.units.Dimension(1), u.meter**2, sp.sqrt(u.meter), u.newton, u.kilogram * u.meter / u.second**2]
+    exps = [u.length, u.time, angle, sp.physics.units.Dimension(1), u.length * angle, u.force, u.velocity, u.meter, u.second, u.radian, Quantity(1),
+            Quantity(0), u.newton, u.area, u.length**sp.Rational(1, 2)]
+    return args, exps
+
+
+def check_gate(arg, exp):
+    try:
+        want = ref_gate(arg, exp)
+    except OutOfDomain:
+        return None
+    got, msg = real_gate(arg, exp, "the_param")
+    if got != want:
+        return f"gate({arg}, expected={exp}): contract says {want}, real gives {got} {msg[:80]}"
+    if got in ("TypeError", "UnitsError") and "the_param" not in msg:
+        return f"gate({arg}, expected={exp}): error message does not name the parameter: {msg}"
+    return None
+
+
+def search_gate(seed=0, budget=0):
+    args, exps = gate_pool()
+    n = 0
+    for i, a in enumerate(args):
+        for j, x in enumerate(exps):
+            n += 1
+            why = check_gate(a, x)
+            if why:
+                return (i, j), why, n
+    # decorator layer
+    for k, sc in enumerate(decorator_scenarios()):
+        n += 1
+        why = sc()
+        if why:
+            return ("deco", k), why, n
+    return None, None, n
+
+
+def decorator_scenarios():
+    """small scenarios for validate_input / validate_output / validate_output_same on dummy functions; each returns None or a
+    description of a disagreement with the contract (every guarded element checked against its own unit, error names the
+    parameter [and index], function not run on refusal, result checked)"""
+    u = _units()
+    from symplyphysics import validate_input, validate_output, Quantity, Symbol
+    from symplyphysics.core.quantity_decorator import validate_output_same
+    L, T = Quantity(2 * u.meter), Quantity(3 * u.second)
+    length_sym = Symbol("l", u.length)
+    out = []
+
+    def expect_refusal(thunk, must_contain, label):
+        def sc():
+            ran = []
+            try:
+                thunk(ran)
+            except Exception as e:  # noqa
+                if ran:
+                    return f"{label}: function body ran although an argument was refused"
+                if must_contain and must_contain not in str(e):
+                    return f"{label}: error {e!r} does not name {must_contain}"
+                return None
+            return f"{label}: accepted a wrong-dimension argument"
+        return sc
+
+    def expect_ok(thunk, label):
+        def sc():
+            try:
+                thunk([])
+            except Exception as e:
+                return f"{label}: refused valid arguments: {e!r}"
+            return None
+        return sc
+
+    def mk(**guards):
+        def deco(ran):
+            @validate_input(**guards)
+            def f(a_, b_, c_=0):
+                ran.append(1)
+                return L
+            return f
+        return deco
+
+    out.append(expect_ok(lambda ran: mk(a_=u.length, b_=u.time)(ran)(L, T), "two guards, positional"))
+    out.append(expect_ok(lambda ran: mk(a_=u.length, b_=u.time)(ran)(b_=T, a_=L), "two guards, keyword"))
+    out.append(expect_refusal(lambda ran: mk(a_=u.length, b_=u.time)(ran)(L, L), "b_", "second guarded argument wrong, positional"))
+    out.append(expect_refusal(lambda ran: mk(a_=u.length, b_=u.time)(ran)(b_=L, a_=L), "b_", "second guarded argument wrong, keyword"))
+    out.append(expect_refusal(lambda ran: mk(a_=u.length, b_=u.time)(ran)(T, T), "a_", "first guarded argument wrong"))
+    out.append(expect_refusal(lambda ran: mk(a_=length_sym, c_=u.time)(ran)(L, T, L), "c_", "third guarded argument wrong (symbol guard)"))
+    out.append(expect_refusal(lambda ran: mk(a_=u.length)(ran)([L, T, L], T), "a_[1]", "second element of a sequence wrong"))
+    out.append(expect_refusal(lambda ran: mk(a_=u.length)(ran)([L, L, T], T), "a_[2]", "third element of a sequence wrong"))
+    out.append(expect_ok(lambda ran: mk(a_=u.length)(ran)([L, L, L], T), "sequence all right"))
+    out.append(expect_ok(lambda ran: mk(a_=(u.length, u.time))(ran)([L, T], T), "tuple units, element-wise"))
+    out.append(expect_refusal(lambda ran: mk(a_=(u.length, u.time))(ran)([L, L], T), "a_[1]", "tuple units: second element against second unit"))
+    out.append(expect_refusal(lambda ran: mk(a_=(u.time, u.length))(ran)([L, L], T), "a_[0]", "tuple units: first element against first unit"))
+
+    def mk_out(unit, ret):
+        def thunk(ran):
+            @validate_output(unit)
+            def f():
+                return ret
+            return f()
+        return thunk
+    out.append(expect_ok(mk_out(u.length, L), "output ok"))
+    out.append(expect_refusal(mk_out(u.time, L), "return", "output of wrong dimension"))
+    out.append(expect_refusal(mk_out(u.length, [L, T]), "return", "second element of an output sequence wrong"))
+
+    def mk_same(ret):
+        def thunk(ran):
+            @validate_output_same("a_")
+            def f(a_, b_):
+                return ret
+            return f(L, T)
+        return thunk
+    out.append(expect_ok(mk_same(L), "output_same ok"))
+    out.append(expect_refusal(mk_same(T), "return", "output_same wrong dimension"))
+    return out
+
+
+def replay_gate(key):
+    if key[0] == "deco":
+        why = decorator_scenarios()[key[1]]()
+    else:
+        args, exps = gate_pool()
+        why = check_gate(args[key[0]], exps[key[1]])
+    assert why is None, why
+    print("contract holds on this input")
